@@ -16,10 +16,44 @@ CHECKS = {
                  "suite (305 symbols, literal spot values) cannot; float rounding is bounded only syntactically (homogeneous rows).",
         "note": NOTE,
     },
+    "C06": {
+        "technique": "table lint over the interpreted registration log: unit-symbol grammar decomposition, dimension-vector gate, "
+                     "exact rational factor algebra, per-quantity-type agreement classes; SI-prefix lint by symbol and name",
+        "level": "Exhaustive static lint of the 1548-row table: every symbol the grammar decomposes into registered units (and whose "
+                 "decomposition is dimensionally coherent) must have factor == product of component factors up to one ratio per "
+                 "quantity type, to the written precision; every SI-prefixed atomic row (by symbol and name) must differ by 10^n. "
+                 "Relates rows to each other, which no test does; 36 genuine inconsistencies of the shipped table are frozen row by "
+                 "row (key = symbol + deviation class) in known_findings.json, so a different wrong factor is a new violation.",
+        "note": NOTE + " Additional trusted data: 26 SI derived atoms and 18 SI prefixes (sa/unitgrammar.py).",
+    },
+    "C14": {
+        "technique": "who-may-write enumeration of registry mutation sites via def-use terms; check-before-write and dominance on CFGs; "
+                     "exhaustive table lint over the interpreted registration log",
+        "level": "History clauses hold for all registration histories because they are decided from which code may write which state and "
+                 "in what order relative to checks (single writers, no raise after a write, duplicate test dominates the write, base "
+                 "moved to front); shipped-table clauses are exhaustive over 191 quantity types, 328 categories, 1548 units.",
+        "note": NOTE,
+    },
+    "C16": {
+        "technique": "structural recognition of the str.replace fold + constant folding of the chain over all table literals; def-use "
+                     "flow of the rewritten string at every unit-string entry point",
+        "level": "Exhaustive: the verified substitution chain is applied to all 1548 current symbols (no capture), to every derivable "
+                 "legacy spelling (62: exact alias, idempotent) and to the pairs themselves; each of the six unit-string entry points "
+                 "is checked to feed the rewritten spelling into its retry lookup and to store/cache the rewritten spelling.",
+        "note": NOTE,
+    },
+    "C19": {
+        "technique": "exhaustive default-category resolution over the interpreted table; flow-sensitive def-use terms for constructor "
+                     "argument roles; format-string/argument order analysis of __repr__",
+        "level": "Every unit (1548) and category (328) of the shipped table is resolved statically the way GetDefaultCategory is verified "
+                 "to resolve it; the positional juggling of all constructor forms is decided by argument roles (parameter positions) "
+                 "reaching ObtainQuantity and the internal constructor; repr order matches the (value, unit, category) overload.",
+        "note": NOTE,
+    },
 }
 
 NOT_APPLICABLE = {
-    **{"C%02d" % i: "check not built yet in this round (static rules designed in DESIGN.md §5; under construction)" for i in range(2, 21)},
+    **{"C%02d" % i: "check not built yet in this round (static rules designed in DESIGN.md §5; under construction)" for i in range(2, 21) if "C%02d" % i not in CHECKS},
 }
 
 NOTES = ("All checks are `./check <id> --tier quick|thorough` (python, stdlib only). Exit 0 = all obligations discharged or listed in "
